@@ -429,10 +429,7 @@ func (x *Exec) inline(fr *Frame, st *State, site ssa.CallInstruction, callee *ss
 
 // opaqueResult is the value of a call the simulator does not look into.
 func (x *Exec) opaqueResult(fr *Frame, site ssa.CallInstruction, callee *ssa.Function, fnTerm *Term, args []*Term) *Term {
-	name := fnTerm.String()
-	if callee != nil {
-		name = funcKey(callee)
-	}
+	name := calleeName(callee, fnTerm)
 	var typ types.Type
 	if v := site.Value(); v != nil {
 		typ = v.Type()
